@@ -584,7 +584,7 @@ def run_shard(ctx):
     ctx.sample({"family": "header-value-class", "entry": "jws.deserialize_compact", "input": {"header": ["alg"]}})
 
 
-REQUIRE = [("calls", 50000, "entry-point calls"), ("rejected_with_permitted_error", 20000, "rejections with JoseError/ValueError"), ("returned", 50, "inputs that were accepted (monitor is not vacuous)")]
+REQUIRE = [("calls", 20000, "entry-point calls"), ("rejected_with_permitted_error", 8000, "rejections with JoseError/ValueError"), ("returned", 50, "inputs that were accepted (monitor is not vacuous)")]
 
 
 def replay(ctx, case):
